@@ -125,7 +125,15 @@ func (rn *plugRunner) evalDomainSet(seq []int) {
 	}
 }
 
-func hostAddr(pos int) string { return "192.0.2." + strconv.Itoa(pos+1) }
+// hostAddr: the value of the entry at position pos. Entries behind the first one
+// carry two addresses of the same family, the first of which is the first entry's
+// address: values that begin alike are still different values.
+func hostAddr(pos int) string {
+	if pos == 0 {
+		return "192.0.2.1"
+	}
+	return "192.0.2.1 192.0.2." + strconv.Itoa(pos+1)
+}
 
 // hosts: value = IPv4 address of the entry. Variant "entries" and variant "files".
 func (rn *plugRunner) evalHosts(seq []int) {
@@ -157,11 +165,18 @@ func (rn *plugRunner) evalHosts(seq []int) {
 			rn.evals++
 			r := hs[vi].Response(q)
 			got, ok := -1, r != nil
-			if ok && len(r.Answer) == 1 {
-				if a, isA := r.Answer[0].(*dns.A); isA {
+			if ok && len(r.Answer) >= 1 && len(r.Answer) <= 2 {
+				// the entry is named by its last address; the list must be exactly the entry's
+				var list []string
+				for _, rr := range r.Answer {
+					if a, isA := rr.(*dns.A); isA {
+						list = append(list, a.A.String())
+					}
+				}
+				if a, isA := r.Answer[len(r.Answer)-1].(*dns.A); isA {
 					if ip, good := netip.AddrFromSlice(a.A.To4()); good {
 						b := ip.As4()
-						if b[0] == 192 && b[1] == 0 && b[2] == 2 {
+						if b[0] == 192 && b[1] == 0 && b[2] == 2 && strings.Join(list, " ") == hostAddr(int(b[3])-1) {
 							got = int(b[3]) - 1
 						}
 					}
